@@ -135,6 +135,9 @@ theorem timeout_fires_partial (q : Quirks) (evs : List Event) (h : Allowed q evs
 theorem invariant_partial (q : Quirks) (evs : List Event) (h : Allowed q evs) : Inv (run q evs) :=
   Inv_run q evs h
 
+def ka : Key := [97]
+def kb : Key := [98]
+
 /-! ## 3b. The tree as it is now: the `_fixed_partial` theorems
 
   With the five repairs in (`Repaired q`: one notification per pushed element, wake-ups carried out right after the
@@ -215,14 +218,12 @@ example : AllowedFixed Quirks.fixed sampleFixed := by decide
 example : ¬ Allowed sourceQuirks sampleFixed := by decide
 example : (run sourceQuirks sampleFixed).out =
     [(2, .int 1), (3, .pair kb [1]), (2, .int 3), (3, .pair ka [2]), (4, .pair ka [4]),
-     (2, .int 1), (5, .pair ka [3]), (2, .int 1), (2, .bulk kb [5]),
+     (5, .pair ka [3]), (2, .int 1), (2, .bulk kb [5]),
      (2, .ok), (2, .queued), (2, .queued), (2, .queued), (2, .arrHdr 3), (2, .nilArr), (2, .int 1), (2, .pair kb [6]),
      (6, .nilArr)] := by decide
 
 /-! ### Non-vacuity: `Allowed` admits blocking, waking, timing out, pipelines, MULTI/EXEC and disconnects -/
 
-def ka : Key := [97]
-def kb : Key := [98]
 
 /-- two waiters on `a` (one with a deadline), two pushes, a wake-up batch, a pipelined push + pop on another key,
     a transaction, a time-out, an idle client going away -/
